@@ -128,11 +128,115 @@ def run(prog, chk):
             nsw += 1
             chk.ob('R17.6', f, c.ln, not sw, 'evaluation %s is conditional on the output switch %s: with echo off, side effects inside the operand (a measurement, a call) are skipped and '
                    'tracked outcomes change with the --echo mode' % (SX.show(c.e)[:40], sw), key='switch-guards-eval:%s' % f.short, nontrivial=bool(sw))
+    # ---- R17.3b: a reset invalidates the qubit's recorded outcome --------------------------------------------------
+    from ..kernels import ArgSummary, arg
+    from ..kcanon import Canon
+    last = [x['name'] for x in R.ev['fields'] if x['type'] == 'std::vector<int>' and 'last' in x['name'].lower()]
+    if len(last) == 1:
+        last = last[0]
+        evfns = [x for x in R.ev_methods() if x.body]
+        base = []
+        for f in evfns:
+            for n in SX.walk(f.body, into_lambdas=False):
+                w = SX.write_target(n)
+                if w and SX.is_node(SX.strip(w[0])) and SX.strip(w[0]).get('k') == 'index' and SX.is_this_member(SX.strip(SX.strip(w[0])['base']), last):
+                    i_ = SX.strip(SX.strip(w[0])['i'])
+                    v_ = SX.strip(w[1])
+                    neg1 = SX.is_node(v_) and v_.get('k') == 'un' and v_.get('op') == '-' and SX.strip(v_['e']).get('v') == 1
+                    if SX.is_node(i_) and i_.get('k') == 'ref' and i_.get('kind') == 'param' and neg1:
+                        base.append((f, [[k for k, p_ in enumerate(f.params) if p_['id'] == i_['id']][0]]))
+        CLR = ArgSummary(prog, base, evfns, modulo_bounds=True)
+        sim = R.sim_classify()
+        nrs = 0
+        for f in evfns:
+            if not any(R.is_sim_call(n, (sim['reset'].short,)) for n in SX.walk(f.body, into_lambdas=False)):
+                continue
+            g = prog.cfg(f)
+            canon = Canon(prog, f)
+            for node in g.calls(lambda e: R.is_sim_call(e, (sim['reset'].short,))):
+                nrs += 1
+                t = canon.text(arg(node.e, 0))
+                clr = [x for x in g.calls() if CLR.establishes_canon(x.e, t, canon)]
+                ok = bool(clr) and (g.must_follow(node, clr) or g.must_precede(clr, node))
+                chk.ob('R17.3', f, node.ln or f.ln, ok,
+                       'sim.reset(%s) goes with forgetting the qubit\'s last measurement (%s[q] = -1, through the unmark/release helpers): a tracked qubit that is measured, reset and not '
+                       'measured again counts as `?`, not as its stale outcome' % (t, last), key='reset-forgets:%s:%s' % (f.short, t[:24]))
+        chk.count('evaluator reset sites', nrs, 3)
+        chk.count('functions that forget a last measurement', len(base), 1)
     # ---- R17.4 / R17.5 CLI ---------------------------------------------------------------------
     _cli(prog, chk, R)
 
 
+def _declarator_siblings(prog, chk):
+    """`@tracked qubit a, b;` — the parser builds one declaration node per declarator; every attribute it derives from the
+    written declaration (annotations and the flags derived from them, finality, type, position) must be given to each of them"""
+    chk.rule('R17.7', 'every declarator of a multi-declaration receives the attributes (tracked flag included) of the declaration')
+    n_ = 0
+    for f in prog.functions:
+        if not f.body or not f.file.endswith('parser.cpp') or f.kind == 'lambda':
+            continue
+        made = [v for v in SX.walk(f.body, into_lambdas=False) if v['k'] == 'var' and 'unique_ptr<bloch::compiler::VariableDeclaration>' in (v.get('type') or '').replace('std::', '')
+                and 'make_unique' in SX.show(v.get('init'))]
+        if len(made) < 2:
+            continue
+        written = {}
+        for n in SX.walk(f.body, into_lambdas=False):
+            w = SX.write_target(n)
+            if not w:
+                continue
+            l = SX.strip(w[0])
+            if SX.is_node(l) and l.get('k') == 'member':
+                root = SX.strip(l.get('base'))
+                while SX.is_node(root) and root.get('k') == 'opcall' and root.get('op') in ('->', '*') and root.get('args'):
+                    root = SX.strip(root['args'][0])
+                if SX.is_node(root) and root.get('k') == 'ref' and root.get('id') in {v['id'] for v in made}:
+                    written.setdefault(root['id'], set()).add(l['name'])
+        first = made[0]
+        for other in made[1:]:
+            n_ += 1
+            missing = sorted(written.get(first['id'], set()) - written.get(other['id'], set()) - {'initializer'})
+            chk.ob('R17.7', f, other.get('ln', f.ln), not missing,
+                   'the additional declarator node `%s` receives every attribute the first one (`%s`) receives; missing: %s — a `@tracked qubit a, b;` then tracks only `a`' %
+                   (other['name'], first['name'], missing), key='declarators:%s:%s' % (f.short, other['name']))
+    chk.count('additional declarator nodes', n_, 1)
+
+
+def _shots_pair(prog, chk):
+    """the (annotated?, N) pair the CLI reads is written by the loader: `annotated` is true exactly when main carries @shots —
+    it does not depend on N (with @shots(1) the run is still an annotated run: header, table, precedence over --shots)"""
+    ld = [f for f in prog.functions if f.file.endswith('module_loader.cpp') and f.body and f.kind != 'lambda' and any(
+        (lambda w: w and SX.is_node(SX.strip(w[0])) and SX.strip(w[0]).get('k') == 'member' and SX.strip(w[0]).get('name') == 'shots')(SX.write_target(n))
+        for n in SX.walk(f.body, into_lambdas=False))]
+    if len(ld) != 1:
+        raise AnalysisBroken('writer of Program::shots not found uniquely')
+    f = ld[0]
+    g = prog.cfg(f)
+    n_ = 0
+    for node, l, r, op in g.writes():
+        l0 = SX.strip(l)
+        if not (SX.is_node(l0) and l0.get('k') == 'member' and l0.get('name') == 'shots'):
+            continue
+        r0 = SX.strip(r)
+        items = (r0.get('items') if r0.get('k') == 'initlist' else SX.real_args(r0)) if SX.is_node(r0) else None
+        if not items or len(items) != 2:
+            raise AnalysisBroken('Program::shots is not written as a (flag, count) pair')
+        n_ += 1
+        flag = SX.strip(items[0])
+        under_annotation = any(pol and 'shots' in SX.show(ce) and ('name' in SX.show(ce) or 'hasShotsAnnotation' in SX.show(ce)) for ce, pol, _ in g.guards(node))
+        if under_annotation:
+            ok = SX.is_node(flag) and flag.get('k') == 'bool' and flag['v'] is True
+            chk.ob('R17.4', f, node.ln or f.ln, ok,
+                   'when main carries @shots the pair records annotated = true whatever N is (found `%s`): @shots(1) is an annotated single-shot run' % SX.show(flag)[:30],
+                   key='shots-pair:annotated')
+        else:
+            ok = SX.is_node(flag) and flag.get('k') == 'bool' and flag['v'] is False
+            chk.ob('R17.4', f, node.ln or f.ln, ok, 'without the annotation the pair records annotated = false (found `%s`)' % SX.show(flag)[:30], key='shots-pair:plain')
+    chk.count('writes of the (annotated, N) pair', n_, 2)
+
+
 def _cli(prog, chk, R):
+    _shots_pair(prog, chk)
+    _declarator_siblings(prog, chk)
     cli = [f for f in prog.functions if f.file.endswith('cli.cpp') and f.body and any(
         n['k'] == 'mcall' and SX.short(n['callee']) == 'trackedCounts' for n in SX.walk(f.body, into_lambdas=False))]
     if len(cli) != 1:
